@@ -304,3 +304,39 @@ package calc
 //@   requires buf != nil && !c02Sent
 //@   ghost at call Contains: c02Sent = res
 //@   ghost at call Add: check c02Sent
+
+//@ -- C03 (resolver side): every tier update - whatever the sorter reports - marks all endpoints for
+//@ -- recalculation (a tier can move in the order without the sorter calling it "dirty", e.g. when an invalid
+//@ -- placeholder becomes valid); a policy update marks the matching endpoints whenever the sorter reports a change;
+//@ -- an endpoint update always marks that endpoint
+//@ ghost c03All bool
+//@ ghost c03Some bool
+//@ ghost c03One bool
+//@ ghost c03Dirty bool
+//@ func (*PolicyResolver).OnUpdate
+//@   property C03
+//@   option safety off
+//@   option callpre off
+//@   requires !c03All && !c03Some && !c03One && !c03Dirty
+//@   ghost at call markAllEndpointsDirty: c03All = true
+//@   ghost at call markEndpointsMatchingPolicyDirty: c03Some = true
+//@   ghost at call (*PolicySorter).OnUpdate: c03Dirty = c03Dirty || res
+//@   ghost at call Add: c03One = true
+//@   ensures istype(update.KVPair.Key, model.TierKey) && !c03One ==> c03All
+//@   ensures istype(update.KVPair.Key, model.PolicyKey) && !c03One && c03Dirty ==> c03Some
+
+//@ -- C02: the flush steps keep the "sent" tables in step with what was emitted: an update marks the object as
+//@ -- sent (so that a later removal names an existing object) and leaves the pending table; a removal is emitted
+//@ -- only from the pending-removal table and unmarks the object
+//@ func (*EventSequencer).flushPolicyUpdates
+//@   property C02
+//@   option safety off
+//@   ghost at call Add: check arg0 == old(buf.sentPolicies) && arg1 == key
+//@ func (*EventSequencer).flushVTEPAdds
+//@   property C02
+//@   option safety off
+//@   ghost at call Add: check arg0 == old(buf.sentVTEPs) && arg1 == msg.Node
+//@ func (*EventSequencer).flushRouteAdds
+//@   property C02
+//@   option safety off
+//@   ghost at call Add: check arg0 == old(buf.sentRoutes) && arg1 == id
